@@ -226,6 +226,17 @@ pub fn switch_points() -> (f64, f64) {
     (find(-1.71), find(1.72))
 }
 
+/// (series, closed-form) call counters of the quartic form's tail helper (library hook); constant in the build
+/// without hooks, where the branch taken is simply not recorded
+#[cfg(feature = "hooks")]
+fn branch_counts() -> (u64, u64) {
+    verif_exp5_branch_counts()
+}
+#[cfg(not(feature = "hooks"))]
+fn branch_counts() -> (u64, u64) {
+    (0, 0)
+}
+
 fn canaries10(m: &mut Mon, sink: &mut Sink) {
     let form = [0.5, 1.0, -2.0, 0.25, 3.0, 7.0];
     let q = IntOfLogPoly4::from_nums(&form);
@@ -265,9 +276,9 @@ pub fn drive10(a: &Args, m: &mut Mon, sink: &mut Sink) {
                     let q = IntOfLogPoly4::from_nums(form);
                     m.eval();
                     m.count("corpus_neighbourhoods");
-                    let (s0, _c0) = verif_exp5_branch_counts();
+                    let (s0, _c0) = branch_counts();
                     let res = guard(|| q.evaluate(v));
-                    let (s1, _c1) = verif_exp5_branch_counts();
+                    let (s1, _c1) = branch_counts();
                     let branch = if s1 > s0 { "series" } else { "closed" };
                     let hh = hash_bits(101, form.iter().map(|e| e.to_bits()).chain([v.to_bits()]));
                     match res {
@@ -314,7 +325,7 @@ pub fn drive10(a: &Args, m: &mut Mon, sink: &mut Sink) {
         m.count(&format!("form:{}", fc));
         m.count(&format!("v:{}", vc));
         let fresh = r.below(16) == 0;
-        let (s0, c0) = verif_exp5_branch_counts();
+        let (s0, c0) = branch_counts();
         let res = if fresh {
             // first library call of a brand-new thread (per-thread state starts pristine there)
             m.count("evaluated_on_fresh_thread");
@@ -322,7 +333,7 @@ pub fn drive10(a: &Args, m: &mut Mon, sink: &mut Sink) {
         } else {
             guard(|| q.evaluate(v))
         };
-        let (s1, c1) = verif_exp5_branch_counts();
+        let (s1, c1) = branch_counts();
         let branch = if fresh { "fresh-thread" } else if s1 > s0 { m.count("branch_series"); "series" } else if c1 > c0 { m.count("branch_closed_form"); "closed" } else { m.count("branch_unknown"); "?" };
         let hh = hash_bits(10, form.iter().map(|e| e.to_bits()).chain([v.to_bits()]));
         match res {
